@@ -51,6 +51,16 @@ func aplFn(tag int) dataframe.FuncType {
 			copy(out, xs)
 			return out
 		}
+	case 14:
+		return func(xs []any) any {
+			out := []any{}
+			for _, v := range xs {
+				if v != nil {
+					out = append(out, v)
+				}
+			}
+			return out
+		}
 	case 12:
 		return func(xs []any) any {
 			out := make([]any, len(xs))
@@ -80,7 +90,11 @@ func genApl(r *Rng, tier string) *Enc {
 	if r.Chance(90) && ncols == 0 {
 		ncols = 1
 	}
-	df := r.Frame(n, ncols, plainNames)
+	aplNames := plainNames
+	if r.Chance(20) {
+		aplNames = []string{"Total", "price", "qty", "a", "B"} // upper case sorts before lower case
+	}
+	df := r.Frame(n, ncols, aplNames)
 	axis := 1
 	if r.Chance(25) {
 		axis = 0
@@ -99,7 +113,7 @@ func genApl(r *Rng, tier string) *Enc {
 	if axis == 0 {
 		tag = r.Intn(8)
 		if r.Chance(25) {
-			tag = Pick(r, []int{10, 11, 12}) // column-wise: mixed kinds, a longer slice, a shorter slice
+			tag = Pick(r, []int{10, 11, 12, 14}) // column-wise: mixed kinds, a longer slice, a shorter slice, the non-nil cells
 		}
 	}
 	if df.Ncols() > 0 && r.Chance(12) {
